@@ -75,7 +75,7 @@ HARNESSES.update({
 
 HARNESSES.update({
     'k_efi_iter_provided_methods': dict(MB2, file='memory_map.rs', kind='bounded', bound='descriptor size 40, 0..=3 descriptors, nth(0..=4), count, skip, last',
-        functions=['EFIMemoryAreaIter (Iterator provided methods vs next)'], props=['C18', 'C01']),
+        functions=['EFIMemoryAreaIter (Iterator provided methods vs next)'], props=['C18', 'C01', 'C05']),
 })
 
 HDR = dict(crate='multiboot2-header', features=None)
